@@ -4,6 +4,8 @@ C01 — Every PDU survives Marshal → ReadPDU unchanged.
 Only property theorems, expectation lemmas over the regenerated facts, negation
 witnesses for known findings and non-vacuity examples live here.
 -/
+import Smpp.Properties.SrcPduCodec
+import Smpp.Properties.SrcPduFrame
 import Smpp.Proofs.Roundtrip
 import Smpp.Generated.Layouts
 
